@@ -92,7 +92,7 @@ try:
     _mem_gb = int(open("/proc/meminfo").readline().split()[1]) // (1 << 20)
 except Exception:
     _mem_gb = 32
-MAXPAR = max(2, min(12, common.NCPU, _mem_gb // 5))
+MAXPAR = int(os.environ.get("VERIF_MAXPAR", "0")) or max(2, min(12, common.NCPU, _mem_gb // 5))
 
 
 def gen_faults(chk, tier, wd, seeds, nseeds):
